@@ -229,11 +229,17 @@ def render(src, v, shape):
         "'VFENV2': {}}})".format(r(v['P3w']), r(v['P3e1']), r(v['P3e2'])),
         "command('p3s', cmd='rec P3s1 && rec P3s2 | rec P3s3', "
         "environment={{'VFENV6': {}}})".format(r(v['P3se'])),
-        "build_step('p4.out', cmd=['rec', 'P4', '--vf-out=p4.out', {}, {}], "
+        "p4 = build_step('p4.out', cmd=['rec', 'P4', '--vf-out=p4.out', {}, {}], "
         "environment={{'VFENV3': {}}})".format(r(v['P4w1']), r(v['P4w2']),
                                               r(v['P4e'])),
         "command('p14', cmd=['rec', 'P14', command.input], files=[{}])"
         .format(r(v['P14f'] + '.in')),
+    ] + (lambda a, b: [a, b] if shape.get('symlink_src_first', True)
+         else [b, a])(
+        # links to a source-tree file and to a build-tree file
+        "copy_file('lnk/src.lnk', {}, mode='symlink')".format(
+            r(v['P14f'] + '.in')),
+        "copy_file('lnk/bld.lnk', p4, mode='symlink')") + [
         "install(executable('iprog', ['main2.c']))",
         "default(vprog, vprog2, vshl, gram, gram1{})".format(
             '' if shape.get('link_globals', True) else ', bare'),
@@ -271,8 +277,8 @@ def configure_env(v, shape=None):
     return env
 
 
-TARGETS = ['p1', 'p2', 'p3', 'p3s', 'p4.out', 'p14', 'prog', 'all', 'test',
-           'install']
+TARGETS = ['p1', 'p2', 'p3', 'p3s', 'p4.out', 'p14', 'lnk/src.lnk',
+           'lnk/bld.lnk', 'prog', 'all', 'test', 'install']
 
 
 def run_template(backend, v, shape, tmp):
@@ -500,6 +506,12 @@ def literal_model_check(values, logs):
             return (['P3se'], 'p3s: process {!r} started with environment '
                     '{!r}, the script specified {!r} for the step'.format(
                         g['argv'], g['env'], {'VFENV6': values['P3se']}))
+    for t, src_ in (('lnk/src.lnk', '@ROOT@/src/' + values['P14f'] + '.in'),
+                    ('lnk/bld.lnk', '../p4.out')):
+        got = [g['argv'] for g in logs.get(t, []) if g['tool'] == 'ln']
+        if got != [['ln', '-sf', src_, t]]:
+            return (['P14f'], 'target {!r}: ln received {!r}, a link to {!r} '
+                    'was declared'.format(t, got, src_))
     for g in logs.get('p2', []):
         if g['tool'] == 'rec' and g['env'] != {'VFENV7': values['P2e']}:
             return (['P2e'], 'p2: command line {!r} of the step started with '
@@ -699,7 +711,8 @@ def cases(draw):
     return {'values': values,
             'shape': {'wrap_children': draw(st.booleans()),
                       'link_globals': draw(st.integers(0, 3)) > 0,
-                      'yacc_one_first': draw(st.booleans())}}
+                      'yacc_one_first': draw(st.booleans()),
+                      'symlink_src_first': draw(st.booleans())}}
 
 
 def make_prop(rec, backend):
